@@ -16,8 +16,10 @@
 //! use_dictionary, sanitised lgwin/lgblock, ring-buffer geometry, the last <= 64 ring bytes below pos, digest of the
 //! ring content at positions [0,pos), digest of the whole ring allocation, recoder position) against
 //! `BV.Dict.setCustomDictionary`; includes unsanitised lgwin / quality values.
-//!   `dict dec <wbits> <size> <seed> <ringbits> <P...>` is answered by the model only (decoder hand model) and is
-//!   not emitted here: the decoder side is tied by the differential decode of the search stage.
+//!   `dict decrun <wbits> <d> <seed> <mlen> <B<hex>|C<dist>,<len> …>` — the decoder's copy path (ring shrink + speculative
+//!   16-byte copy): for streams that are ONE meta-block marked ISLAST, the commands are the encoder's IR and the answer is what the
+//!   REAL brotli-decompressor returned (right or wrong); `BV.Dict.decOutput` must return the same bytes.
+//!   `dict dec <wbits> <size> <seed> <ringbits> <P...>` is answered by the model only.
 //!
 //! non-trivial case = d >= 1, the encoder returned a stream and the decoder oracle was evaluated on it.
 //! Corpus: /verif/corpus/dict/*.txt, one case per file: `lgwin q d seed magic kind api inputseed` (decimal).
@@ -273,9 +275,45 @@ pub fn make_input(c: &Case, dict: &[u8]) -> Vec<u8> {
     v
 }
 
-fn run_case(c: &Case, rep: &mut Report) {
+/// correspondence for the decoder's copy path (ring shrink + speculative 16-byte copy): a stream whose whole input is
+/// ONE meta-block marked ISLAST; the commands the decoder executes are taken from the encoder's IR (log_meta_block);
+/// request `dict decrun <wbits> <d> <seed> <mlen> <B<hex>|C<dist>,<len> …>`; answer = what the REAL decoder returned
+/// (right or wrong) — the model `BV.Dict.decOutput` must return the same bytes.
+fn decrun_line(c: &Case, dict: &[u8], input: &[u8], lines: &mut Vec<(String, String)>, rep: &mut Report) {
+    use crate::recoder::{record, expand_word, Ir, Mb};
+    if !(c.q >= 2 && c.d >= 1 && !c.magic && input.len() >= 4 && input.len() <= 6000 && (10..=24).contains(&c.lgwin)) { return; }
+    let mut p = base_params(c.q, c.lgwin);
+    p.log_meta_block = true;
+    let mut mbs: Vec<Mb> = Vec::new();
+    let out = match encode_stream_x(input, dict, false, &p, &[1 << 20], 1 << 16, &mut |_pm, cmds: &mut [interface::StaticCommand], mb: InputPair, _a| { mbs.push(record(cmds, &mb)); }) { Ok((o, _)) => o, Err(_) => return };
+    if mbs.len() != 1 || mbs[0].bytes.len() != input.len() { return; }
+    // ISLAST bit of the first meta-block header (behind the window bits: 1, 4 or 7 bits)
+    let wb = if c.lgwin == 16 { 1 } else if c.lgwin > 17 { 4 } else { 7 };
+    if out.is_empty() || (out[wb / 8] >> (wb % 8)) & 1 != 1 { rep.count("corr.decrun_skipped_not_islast"); return; }
+    let w = (1usize << c.lgwin) - 16;
+    if c.d.min(w) + input.len() > (1usize << c.lgwin) { return; }
+    let mut toks: Vec<String> = Vec::new();
+    for t in mbs[0].ir.iter() {
+        match t {
+            Ir::Lit { bytes: Some(b), .. } => toks.push(format!("B{}", hex(b))),
+            Ir::Lit { bytes: None, .. } => return,
+            Ir::Copy { dist, n } => toks.push(format!("C{},{}", dist, n)),
+            Ir::Dict { ws, tr, id, .. } => match expand_word(*ws as usize, *id as usize, *tr as usize) { Some(wd) => toks.push(format!("B{}", hex(&wd))), None => return },
+            _ => {}
+        }
+    }
+    let ans = match decode_dict(&out, dict, input.len() + 1000) { DResult::Ok(v) => format!("ok {}", hex(&v)), _ => return };
+    let op = format!("dict decrun {} {} {} {} {}", c.lgwin, c.d, c.seed, input.len(), toks.join(" "));
+    if op.len() >= 65000 { return; }
+    rep.count("corr.decrun_lines");
+    if c.kind == 5 { rep.count("corr.decrun_lines_shrunk_kind"); }
+    lines.push((op, ans));
+}
+
+fn run_case(c: &Case, rep: &mut Report, lines: &mut Vec<(String, String)>) {
     let dict = gen_dict(c.seed, c.d);
     let input = make_input(c, &dict);
+    decrun_line(c, &dict, &input, lines, rep);
     let mut p = base_params(c.q, c.lgwin);
     p.magic_number = c.magic;
     let mut rng = Rng::new(c.iseed ^ 0xc4a2);
@@ -533,8 +571,8 @@ pub fn run_cmd(args: &Args) {
     // ---- search: round trip with the same dictionary
     let cs = std::sync::Arc::new(cases(thorough, args.seed));
     let cs2 = cs.clone();
-    let reps = par_tasks(cs.len(), move |i| { let mut r = Report::default(); run_case(&cs2[i], &mut r); r });
-    for r in reps { rep.merge(r); }
+    let reps = par_tasks(cs.len(), move |i| { let mut r = Report::default(); let mut l = Vec::new(); run_case(&cs2[i], &mut r, &mut l); (r, l) });
+    for (r, l) in reps { rep.merge(r); for (o, a) in l { corr.case(&o, &a); } }
     let _ = std::panic::take_hook();
     corr.finish();
     rep.write(&args.out);
